@@ -474,6 +474,9 @@ class Savable:
     def auto_persist(cls, *members: str) -> None:
         if cls._auto_persist is None:
             cls._auto_persist = set()
+        elif '_auto_persist' not in cls.__dict__:
+            # The set is the one of a parent class: give this class its own before adding to it
+            cls._auto_persist = set(cls._auto_persist)
         cls._auto_persist.update(members)
 
     @classmethod
